@@ -278,7 +278,15 @@ type ServerOpts struct {
 	// ReflectMD: metadata the reflection API demands of its caller (the gun's reflect_metadata option); a reflection
 	// stream without every one of these pairs is refused with PermissionDenied.
 	ReflectMD map[string]string
+	// Ghost: the server (and hence its reflection API) lists one more service, aaa.Ghost, whose descriptor nobody can
+	// resolve (a service registered without its file descriptor): the reflection client gets "not found" for it. The
+	// name sorts before every other service.
+	Ghost bool
+	// Host: the address the server listens on, without port ("" = 127.0.0.1; "[::1]" = the IPv6 loopback).
+	Host string
 }
+
+type ghostService interface{}
 
 // StartServer starts the example service with reflection on 127.0.0.1:0.
 func StartServer() (*Server, error) { return StartServerWith(ServerOpts{}) }
@@ -310,6 +318,9 @@ func StartServerWith(o ServerOpts) (*Server, error) {
 	s.GS = grpc.NewServer(grpc.UnaryInterceptor(s.intercept), grpc.StreamInterceptor(s.streamIntercept(o.ReflectMD)))
 	s.Srv = server.NewServer(slog.New(slog.NewTextHandler(io.Discard, nil)), 1)
 	server.RegisterTargetServiceServer(s.GS, s.Srv)
+	if o.Ghost {
+		s.GS.RegisterService(&grpc.ServiceDesc{ServiceName: "aaa.Ghost", HandlerType: (*ghostService)(nil), Metadata: "ghost.proto"}, struct{}{})
+	}
 	if !o.NoReflection {
 		reflection.Register(s.GS)
 	}
@@ -327,8 +338,12 @@ func StartServerWith(o ServerOpts) (*Server, error) {
 	// "ENV …", which the Lean driver counts as inconclusive)
 	var l net.Listener
 	var err error
+	host := o.Host
+	if host == "" {
+		host = "127.0.0.1"
+	}
 	for try := 0; try < 20; try++ {
-		l, err = net.Listen("tcp", "127.0.0.1:0")
+		l, err = net.Listen("tcp", host+":0")
 		if err == nil {
 			break
 		}
